@@ -273,9 +273,16 @@ ID_EXCEPTIONS = {
 DELEGATES = QUERY_PREFIX + ('index', 'get_element')
 
 
-def _validates(node, idname, follow=None) -> str | None:
+def _validates(node, idname, follow=None, consts=None) -> str | None:
     """does this statement/expression validate identifier `idname`? returns a reason or None"""
     for n in ast.walk(node):
+        # getattr(obj, q)(id) where q is a parameter bound to a literal query name at the call site
+        if isinstance(n, ast.Call) and isinstance(n.func, ast.Call) and getattr(n.func.func, 'id', '') == 'getattr' and len(n.func.args) == 2 \
+                and any(idname in names_in(a) for a in n.args):
+            q = n.func.args[1]
+            qv = q.value if isinstance(q, ast.Constant) else ((consts or {}).get(q.id) if isinstance(q, ast.Name) else None)
+            if isinstance(qv, str) and (qv.startswith(DELEGATES) or qv in DELEGATES):
+                return f'delegated to {qv}() through getattr'
         if isinstance(n, ast.Subscript) and isinstance(n.ctx, ast.Load) and idname in names_in(n.slice):
             # dict.get style defaults are calls, not subscripts: a subscript raises on a miss
             return f'raising lookup {ast.unparse(n)[:50]}'
@@ -292,7 +299,7 @@ def _validates(node, idname, follow=None) -> str | None:
     return None
 
 
-def _path_validates(path, idname, follow=None):
+def _path_validates(path, idname, follow=None, consts=None):
     v = None
     for step in path:
         if step[0] == 'guard':
@@ -312,17 +319,17 @@ def _path_validates(path, idname, follow=None):
                     v = f'is the reference node ({fnm}())'
         elif step[0] in ('stmt', 'return', 'loop'):
             node = step[1]        # a loop validates like the comprehension it stands for (iterable and body)
-            v = v or _validates(node, idname, follow)
+            v = v or _validates(node, idname, follow, consts)
         if v: break
     return v
 
 
-def _unvalidated_path(fn, idname, follow=None):
+def _unvalidated_path(fn, idname, follow=None, consts=None):
     """first returning path of `fn` on which `idname` is never validated (None when every path validates)"""
     allp = list(paths(fn.body))
     for path in allp:
         if path[-1][0] != 'return': continue
-        if not _path_validates(path, idname, follow):
+        if not _path_validates(path, idname, follow, consts):
             return path, allp
     return None, allp
 
@@ -351,8 +358,13 @@ def _follower(prog, m, cls, depth=0, seen=()):
         for k in call.keywords:
             if isinstance(k.value, ast.Name) and k.value.id == idname and k.arg in params: pname = k.arg
         if pname is None: return None
+        consts = {}
+        for i, a in enumerate(call.args):
+            if isinstance(a, ast.Constant) and isinstance(a.value, str) and i < len(params): consts[params[i]] = a.value
+        for k in call.keywords:
+            if isinstance(k.value, ast.Constant) and isinstance(k.value.value, str) and k.arg in params: consts[k.arg] = k.value.value
         try:
-            bad, allp = _unvalidated_path(tf, pname, _follower(prog, tm, cls if is_method else None, depth + 1, seen + (id(tf),)))
+            bad, allp = _unvalidated_path(tf, pname, _follower(prog, tm, cls if is_method else None, depth + 1, seen + (id(tf),)), consts)
         except TooManyPaths:
             return None
         if bad is None and any(p[-1][0] == 'return' for p in allp):
